@@ -323,8 +323,14 @@ impl CursorTracker for CursorTrackerImpl<'_> {
 
             cursor.cursor.0 = match cursor.tok_pos {
                 TokPos::Content { offset } => {
-                    // offset into the token content, but don't go over the end of the token if its length has changed
-                    new_token_offset as u32 + offset.min(tok.get_content().len() as u32)
+                    // offset into the token content, but don't go over the end of the token if its
+                    // length has changed, nor into the middle of a character of its new text
+                    let content = tok.get_content();
+                    let mut offset = (offset as usize).min(content.len());
+                    while !content.is_char_boundary(offset) {
+                        offset -= 1;
+                    }
+                    (new_token_offset + offset) as u32
                 }
                 TokPos::MultilineContent {
                     reverse_col,
@@ -339,8 +345,12 @@ impl CursorTracker for CursorTrackerImpl<'_> {
                         + reverse_col as usize;
 
                     // The content may have become shorter (re-indented multi-line string).
-                    let content_len = tok.get_content().len();
-                    (new_token_offset + content_len - offset_from_end.min(content_len)) as u32
+                    let content = tok.get_content();
+                    let mut offset = content.len() - offset_from_end.min(content.len());
+                    while !content.is_char_boundary(offset) {
+                        offset -= 1;
+                    }
+                    (new_token_offset + offset) as u32
                 }
                 TokPos::Whitespace {
                     col,
